@@ -27,7 +27,7 @@ COMPONENTS = {"real": ["server Transport + AuthHandler + key classes unmodified"
               "simulated": ["socket", "clock", "scheduling", "entropy"], "stubbed": ["GSS-API context (python-gssapi is not installed)"]}
 ASSUMPTIONS = ["validity of a publickey signature is known by construction (the harness builds it)"]
 KEYS = ("rsa1", "ecdsa256_1", "ecdsa384_1", "ecdsa521_1", "ed25519_1")
-ALTER = (None, None, "session", "user", "service", "algo", "key", "sigbytes")
+ALTER = (None, None, "session", "user", "service", "algo", "key", "sigbytes", "sig-short", "sig-long", "sig-empty", "sig-negative")
 METHOD_OF_CB = {"keyboard-interactive-response": "keyboard-interactive"}
 
 
@@ -79,6 +79,10 @@ def scenario(sim):
             elif m == 6:
                 s.auth_kbdint("alice"); ops.append("kbdint")
                 s.settle(5)
+                if sim.choose(4) == 0:
+                    # another user's request slips in while alice's query is outstanding
+                    s.auth_none("root"); ops.append("none(root)")
+                    s.settle(5)
                 for _ in range(sim.choose(3)):
                     s.info_response(("x",)); ops.append("info-response")
                     s.settle(5)
@@ -107,12 +111,15 @@ def check(sim, s, desc):
     req_idx = -1
     cur = None
     approvals = []          # callbacks since the current request / response arrived
+    kbd_user = None
     success_at = None
     for seq, kind, ptype, data in s.server_events():
         if kind == "rx" and ptype == 50:
             req_idx += 1
             cur = sent[req_idx] if req_idx < len(sent) else None
             approvals = []
+            if cur and cur["method"] == "keyboard-interactive":
+                kbd_user = cur["user"]
         elif kind == "rx" and ptype in (61, 66):
             approvals = []          # a continuation message of the current method
             gss_flow = bool(cur and cur["method"] == "gssapi-with-mic" and not cur.get("gss_done"))
@@ -121,7 +128,8 @@ def check(sim, s, desc):
             if ptype == 61 and not gss_flow:
                 # an INFO_RESPONSE (solicited or not) is a keyboard-interactive message: the server
                 # hands it to the application's interactive-response check, whose verdict counts
-                cur = {"method": "keyboard-interactive", "user": cur["user"] if cur else None, "via_response": True}
+                cur = {"method": "keyboard-interactive", "user": kbd_user if kbd_user is not None else (cur["user"] if cur else None),
+                       "via_response": True}
         elif kind == "cb" and data[2] == "auth":
             approvals.append(data)
         elif kind == "tx" and ptype == 52:
@@ -152,6 +160,12 @@ def check(sim, s, desc):
                                     "publickey request whose signature is not valid for this session (%s) was authenticated" % why, desc)
             if method in ("gssapi-with-mic", "gssapi-keyex") and not desc["stub_mic_ok"]:
                 raise Violation(("C14", "gss-mic-failure-ignored", method), "GSS MIC check failed but the client was authenticated", desc)
+            # the identity the server now reports must be the one the approved exchange was started for
+            who = s.ts.get_username()
+            started_for = cur["user"] if not cur.get("via_response") else cur.get("user")
+            if who is not None and started_for is not None and who != started_for:
+                raise Violation(("C14", "authenticated-as-other-user", method),
+                                "application approved %s for %r but the server reports %r as authenticated" % (method, started_for, who), desc)
             sim.probe("success_justified_" + method)
             break       # the client is authenticated from here on; later messages are not auth decisions
     if s.ts.is_authenticated() and success_at is None:
